@@ -199,6 +199,10 @@ class Ctx(object):
             cmd.append('-Dtlc2.tool.queue.IStateQueue=StateDeque')
         cmd += ['-cp', JAR + ':' + CMJAR, 'tlc2.TLC', '-metadir', os.path.join(d, 'md'),
                 '-workers', str(w), '-config', module + '.cfg']
+        if dfs:
+            # the depth-first queue cannot be checkpointed: a run that lasts longer than the checkpoint interval (30 min) dies
+            # with "StateDeque does not support checkpointing"
+            cmd += ['-checkpoint', '0']
         if nodeadlock:
             cmd.append('-deadlock')
         if simulate:
